@@ -1276,3 +1276,130 @@ Definition xcookies_sent (rule : client_rule) (ev : xevent) (js : jars) : cookie
   | XLoad t _ => wire_cookies t [] (match xslot rule ev with Some k => jar_get k js | None => [] end)
   | XSend t _ c _ => wire_cookies t (xown c) (match xslot rule ev with Some k => jar_get k js | None => [] end)
   end.
+
+(* ------------------------------------------------------------------------------------------------ *)
+(* 15. application/x-www-form-urlencoded bodies                                                       *)
+(*     core/transport.py:16 prepare_urlencoded; specs/openapi/_hypothesis.py:130 (generation phase:   *)
+(*     strategy.map(prepare_urlencoded)); generation/hypothesis/builder.py:213 adjust_urlencoded_payload *)
+(*     (examples and coverage phases); transport/requests.py:216 and transport/wsgi.py:151            *)
+(*     urlencoded_serializer (data = the value AS IT IS; the ASGI transport copies the serializers of  *)
+(*     the requests transport); requests 2.32 models.py _encode_params + urllib.parse.urlencode with   *)
+(*     doseq; werkzeug 3.1 test.py EnvironBuilder (_iter_data, form MultiDict) + urls.py _urlencode   *)
+(* ------------------------------------------------------------------------------------------------ *)
+(* a form body value: a scalar, an object of scalars, a Python 2-tuple, a list *)
+Inductive fval := FLeaf (p : pyv) | FDict (d : list (str * pyv)) | FTuple (a b : fval) | FList (l : list fval).
+
+Definition s_arbitrary : str := [97;114;98;105;116;114;97;114;121;45;118;97;108;117;101].   (* arbitrary-value *)
+(* one item of a list: the entries of a dict become (key, value) tuples, anything else becomes the KEY of a pair *)
+Definition prep_item (it : fval) : list fval :=
+  match it with
+  | FDict d => map (fun kv => FTuple (FLeaf (PStr (fst kv))) (FLeaf (snd kv))) d
+  | other => [FTuple other (FLeaf (PStr s_arbitrary))]
+  end.
+(* prepare_urlencoded: only lists are rewritten *)
+Definition prepare_urlencoded (v : fval) : fval :=
+  match v with FList l => FList (flat_map prep_item l) | other => other end.
+
+(* what urlencoded_serializer hands to the client library as data=.  THE CODE: the value as it is (all three transports).
+   SENTINEL (the seeded rule C06_e, not used by the correspondence): the serializer prepares the value once more. *)
+Definition form_ser_rule := fval -> fval.
+Definition ser_as_is : form_ser_rule := fun v => v.
+Definition ser_prepares_again : form_ser_rule := prepare_urlencoded.
+
+(* quote_plus(s, safe) = quote(s, safe + space).replace(space, +) *)
+Definition fq (safe : N -> bool) (s : str) : option str := omap sp_to_plus (quote_with (fun b => is_sp b || safe b) s).
+(* werkzeug.urls._urlencode: safe = !$'()*,/:;?@ ; requests -> urllib.parse.urlencode: no extra safe characters *)
+Definition werkzeug_safe (b : N) : bool := mem b [33;36;39;40;41;42;44;47;58;59;63;64].
+Definition form_safe (t : transport) : N -> bool := match t with TWsgi => werkzeug_safe | _ => no_safe end.
+Definition enc_pair (safe : N -> bool) (kv : str * str) : option str :=
+  match fq safe (fst kv), fq safe (snd kv) with Some k, Some v => Some (k ++ 61 :: v) | _, _ => None end.
+Definition urlencode (safe : N -> bool) (l : list (str * str)) : option str :=
+  omap (join [38]) (all_some (map (enc_pair safe) l)).
+
+(* repr() of a str without quotes, backslashes, control or non-ASCII characters; str() of a 2-tuple of scalars *)
+Definition repr_plain (s : str) : bool :=
+  forallb (fun c => (32 <=? c) && (c <? 127) && negb (c =? 39) && negb (c =? 92)) s.
+Definition py_repr_leaf (p : pyv) : option str :=
+  match p with PStr s => if repr_plain s then Some (39 :: s ++ [39]) else None | _ => Some (py_str p) end.
+(* str(key): urlencode applies str() to a key that is neither str nor bytes.  None = outside the model *)
+Definition key_text (k : fval) : option str :=
+  match k with
+  | FLeaf p => Some (py_str p)
+  | FTuple (FLeaf a) (FLeaf b) =>
+      match py_repr_leaf a, py_repr_leaf b with
+      | Some x, Some y => Some (40 :: x ++ [44; 32] ++ y ++ [41])
+      | _, _ => None
+      end
+  | _ => None
+  end.
+(* one (key, value) of the data: a None value is dropped (requests: if v is not None; werkzeug: x[1] is not None),
+   a scalar gives one pair of texts; lists / tuples / dicts as values are outside the model *)
+Definition pair_text (k v : fval) : option (list (str * str)) :=
+  match key_text k, v with
+  | Some _, FLeaf PNone => Some []
+  | Some kt, FLeaf p => Some [(kt, py_str p)]
+  | _, _ => None
+  end.
+(* to_key_val_list / dict.items(): a dict gives its items, a list must hold 2-tuples *)
+Definition kv_items_of (data : fval) : option (list (fval * fval)) :=
+  match data with
+  | FDict d => Some (map (fun kv => (FLeaf (PStr (fst kv)), FLeaf (snd kv))) d)
+  | FList l => all_some (map (fun it => match it with FTuple a b => Some (a, b) | _ => None end) l)
+  | _ => None
+  end.
+Definition texts_of (items : list (fval * fval)) : option (list (str * str)) :=
+  omap (@concat _) (all_some (map (fun kv => pair_text (fst kv) (snd kv)) items)).
+Inductive fwire := WBody (s : str) | WRaises | WEncodeError | WUnmodelled.
+Definition encode_items (safe : N -> bool) (items : list (fval * fval)) : fwire :=
+  match texts_of items with
+  | None => WUnmodelled
+  | Some ps => match urlencode safe ps with Some s => WBody s | None => WEncodeError end
+  end.
+(* the bytes of the body the application receives for data= (an empty dict / list: no body at all = the empty text).
+   werkzeug: _iter_data calls data.items(): a non-empty LIST raises AttributeError *)
+Definition form_wire (t : transport) (data : fval) : fwire :=
+  match t, data with
+  | TWsgi, FList [] => WBody []
+  | TWsgi, FList _ => WRaises
+  | _, _ => match kv_items_of data with Some items => encode_items (form_safe t) items | None => WUnmodelled end
+  end.
+(* generated value -> case body (prepared ONCE by the generation / examples / coverage phase) -> serializer -> wire *)
+Definition form_path (rule : form_ser_rule) (t : transport) (v : fval) : fwire := form_wire t (rule (prepare_urlencoded v)).
+
+(* DECODER (WHATWG URL / HTML application/x-www-form-urlencoded parsing, = urllib.parse.parse_qsl with keep_blank_values):
+   split at the ampersand, each field at its first equals sign (no equals sign: blank value), percent-decode with plus = space *)
+Definition decode_field (f : str) : option (str * str) :=
+  match split_first 61 f [] with
+  | Some (k, v) => obind (pct_decode_form k) (fun k' => omap (pair k') (pct_decode_form v))
+  | None => omap (fun k' => (k', [])) (pct_decode_form f)
+  end.
+Definition decode_form (s : str) : option (list (str * str)) := all_some (map decode_field (split_list 38 s)).
+
+(* SPECIFICATION: the (name, text) pairs a form value stands for: an object gives its fields in order, an array of objects the
+   fields of its items in order; a null field is absent; scalars are read up to string coercion *)
+Definition leaf_pair (k : str) (p : pyv) : list (str * str) := match p with PNone => [] | _ => [(k, py_str p)] end.
+Definition pairs_of_dict (d : list (str * pyv)) : list (str * str) := flat_map (fun kv => leaf_pair (fst kv) (snd kv)) d.
+Definition dicts_of (l : list fval) : option (list (list (str * pyv))) :=
+  all_some (map (fun it => match it with FDict d => Some d | _ => None end) l).
+Definition pairs_of (v : fval) : option (list (str * str)) :=
+  match v with
+  | FDict d => Some (pairs_of_dict d)
+  | FList l => omap (fun ds => pairs_of_dict (concat ds)) (dicts_of l)
+  | _ => None
+  end.
+
+(* regions *)
+(* the modelled fragment of form values: an object of scalars or an array of such objects *)
+Definition form_shape (v : fval) : bool := match pairs_of v with Some _ => true | None => false end.
+(* every text can be encoded (no lone surrogate) *)
+Definition pyv_scalar (p : pyv) : bool := forallb is_scalar (py_str p).
+Definition dict_scalar (d : list (str * pyv)) : bool := forallb (fun kv => forallb is_scalar (fst kv) && pyv_scalar (snd kv)) d.
+Definition form_encodable (v : fval) : bool :=
+  match v with
+  | FDict d => dict_scalar d
+  | FList l => match dicts_of l with Some ds => dict_scalar (concat ds) | None => false end
+  | _ => false
+  end.
+(* werkzeug cannot take a non-empty list as data= (finding F14) *)
+Definition wsgi_array_form (t : transport) (v : fval) : bool :=
+  match t, v with TWsgi, FList (_ :: _) => true | _, _ => false end.
